@@ -107,7 +107,7 @@ package slog
 //@   maypanic
 //@   keeps Entry.*, dualWriter.*, map[string]*Entry, lvlCurrent
 //@   requires [C10.opts] forall(i, 0, len(args), implies(typeis(args[i], Opt), dyn(args[i], Opt) != nil))
-//@   ensures [C10.detached] result != nil && fresh(result) && result.Entry != nil && fresh(result.Entry) && implies(old(forall(i, 0, len(args), !typeis(args[i], Opt))), result.Entry.owner == nil && result.Entry.level == old(lvlCurrent) && result.Entry.useColor && !result.Entry.useJSON && result.Entry.writer == nil && result.Entry.items == nil)
+//@   ensures [C10.detached] result != nil && fresh(result) && result.Entry != nil && fresh(result.Entry) && implies(old(forall(i, 0, len(args), !typeis(args[i], Opt))), result.Entry.owner == nil && result.Entry.level == old(lvlCurrent) && result.Entry.useColor && !result.Entry.useJSON && result.Entry.writer == nil && result.Entry.items == nil && implies(old(len(args)) <= 1, len(result.Entry.attrs) == 0))
 
 //@ func New
 //@   props C10
@@ -115,7 +115,7 @@ package slog
 //@   maypanic
 //@   keeps Entry.*, dualWriter.*, map[string]*Entry, lvlCurrent
 //@   requires [C10.opts] forall(i, 0, len(args), implies(typeis(args[i], Opt), dyn(args[i], Opt) != nil))
-//@   ensures [C10.detached] typeis(result, *logimp) && dyn(result, *logimp) != nil && dyn(result, *logimp).Entry != nil && fresh(dyn(result, *logimp).Entry) && implies(old(forall(i, 0, len(args), !typeis(args[i], Opt))), dyn(result, *logimp).Entry.owner == nil && dyn(result, *logimp).Entry.level == old(lvlCurrent) && dyn(result, *logimp).Entry.useColor && !dyn(result, *logimp).Entry.useJSON)
+//@   ensures [C10.detached] typeis(result, *logimp) && dyn(result, *logimp) != nil && dyn(result, *logimp).Entry != nil && fresh(dyn(result, *logimp).Entry) && implies(old(forall(i, 0, len(args), !typeis(args[i], Opt))), dyn(result, *logimp).Entry.owner == nil && dyn(result, *logimp).Entry.level == old(lvlCurrent) && dyn(result, *logimp).Entry.useColor && !dyn(result, *logimp).Entry.useJSON && implies(old(len(args)) <= 1, len(dyn(result, *logimp).Entry.attrs) == 0) && dyn(result, *logimp).Entry.writer == nil)
 
 // Each: the local step of the traversal (one callback for the logger itself at its depth, one recursive
 // call per child at depth+1); that every logger of the subtree is visited exactly once follows by
